@@ -91,12 +91,28 @@ def compare(case, obs):
 
 def main(chk, args):
     rnd = random.Random(chk.seed)
-    cases = pipeline.get_cases(chk, chk.tier, chk.seed, sim_quick=120)
+    cases = pipeline.get_cases(chk, chk.tier, chk.seed, sim_quick=120, extra_scopes=('ads',))
     # C15 is about metadata: make sure the option is on for the shape cases (the option alphabet still covers off)
     if chk.tier == 'thorough' and len(cases) > 2500:
         special = [c for c in cases if c['req']['extra'] != 'none' and c['expect']['metadataJson']]
         cases = special[:800] + rnd.sample(cases, 1700)
     if chk.tier == 'quick':
+        # C15 is about the metadata file and the fix-up table: every case with the metadata option on or a special `extra`
+        # is a candidate, of the others (metadata off: only the fix-up table is compared) a seeded sixth; of the Ads scope (no
+        # metadata file there) the reserved-word cases and a seeded tenth
+        def keep(c):
+            ads = 'python-gapic-templates=ads-templates' in c['req']['items']
+            if ads:
+                return c['req']['extra'] != 'none' or rnd.random() < 0.1
+            return bool(c['expect']['metadataJson']) or c['req']['extra'] != 'none' or rnd.random() < 0.16
+        cases = [c for c in cases if keep(c)]
+        # stratified: at most three requests per (template set, extra, option list, number of services, method kinds, versioned?)
+        groups = {}
+        for c in cases:
+            r = c['req']
+            groups.setdefault((('python-gapic-templates=ads-templates' in r['items']), r['extra'], tuple(r['items']), len(r['svcs']),
+                               tuple(r['kinds']), bool(r['pkg'][2])), []).append(c)
+        cases = [c for g in groups.values() for c in (g if len(g) <= 3 else rnd.sample(g, 3))]
         # importing is the expensive step: do it for every special case and a seeded third of the others
         for c in cases:
             c['_import'] = c['req']['extra'] != 'none' or rnd.random() < 0.3
